@@ -467,7 +467,7 @@ theorem tbl_closed (i : Nat) (s0 : State) : PrimClosed i Guard.any (Tbl1 i s0) w
   invalidateKeys s sess h := h.trans (tbl_invalidateKeys s sess)
   dropSessionRefs s id h := h.trans (tbl_dropSessionRefs s id)
   checkPrep s s1 p hc hc1 md hr _ h := h.trans (tbl_checkPrep hr)
-  checkFinish _ _ s p _ hc1 md _ _ _ _ h := h.trans (tbl_checkFinish s p hc1 md)
+  checkFinish _ _ s p _ hc1 md _ _ _ _ _ h := h.trans (tbl_checkFinish s p hc1 md)
   chkRows _ _ _ _ := trivial
   insertSession s x h := h.trans (tbl_insertSession s x)
   pqSet s s' id sess hr h := h.trans (tbl_pqSet hr)
@@ -477,7 +477,7 @@ theorem tbl_closed (i : Nat) (s0 : State) : PrimClosed i Guard.any (Tbl1 i s0) w
   deleteCheckPre s node id x _ h := h.trans (tbl_deleteCheckPre s node id x)
   deleteServicePost s node id v _ _ _ h := h.trans (tbl_deleteServicePost s node id v)
   deleteNodePost s name _ _ _ h := h.trans (tbl_deleteNodePost s name)
-  bumpServiceIdx s name h := h.trans (tbl_bump s name)
+  bumpServiceIdx s name _ h := h.trans (tbl_bump s name)
   svcInsert s v hv _ _ _ h := h.trans (tbl_svcInsert s v hv)
 
 /-- every command: whenever one of the six result tables changes, its index row is written -/
